@@ -39,6 +39,13 @@ def payload_pool():
         _POOL.extend([None, 1, 'text', {'a': [1, 2, {'b': (3, None)}]}, np.arange(6.).reshape(2, 3),
                       {'res': np.array([1.5, float('nan')]), 'n': 3}, (1, 'two', 3.0), [],
                       {'deep': {'deeper': {'deepest': list(range(20))}}}, b'bytes\x00\xff'])
+        # payloads that are not trees: a child that knows its parent, a list that holds itself, one object at two places
+        parent = {'name': 'root', 'children': []}
+        parent['children'].append({'name': 'leaf', 'parent': parent})
+        loop = [1, 2]
+        loop.append(loop)
+        shared = [1.0, 2.0]
+        _POOL.extend([parent, loop, {'x': shared, 'y': shared}])
     return _POOL
 
 
